@@ -1,4 +1,6 @@
 import Netconan.Proofs.Lines
+import Netconan.Props.C06
+import Netconan.Props.C11
 /-!
 # C12 – Non-sensitive text and line structure are conserved
 -/
@@ -52,5 +54,35 @@ theorem secret_stage_keeps_line_frame (x : Ext) (fs groups) (salt input : List C
   | ok p =>
     simp [hg] at h
     exact ⟨ld, body, tr, p.1, hc, by rw [← h.1, List.append_assoc]⟩
+
+open Netconan.Regex in
+theorem disjointFrom_spec (a b : List (Nat × Nat)) (h : C06.disjointFrom a b = true) (c : Char)
+    (ha : inRanges a c = true) : inRanges b c = false := by
+  simp only [inRanges, List.any_eq_true, Bool.and_eq_true, decide_eq_true_eq] at ha
+  obtain ⟨r, hr, h1, h2⟩ := ha
+  simp only [C06.disjointFrom, List.all_eq_true, Bool.or_eq_true, decide_eq_true_eq] at h
+  cases hb : inRanges b c with
+  | false => rfl
+  | true =>
+    simp only [inRanges, List.any_eq_true, Bool.and_eq_true, decide_eq_true_eq] at hb
+    obtain ⟨s, hs, h3, h4⟩ := hb
+    rcases h r hr s hs with h5 | h5 <;> omega
+
+open Netconan.Regex Netconan.IpText in
+/-- **The IP stages cannot touch white space or line terminators**: everything they change lies inside
+spans free of white-space characters (so leading/trailing white space and the terminator of a line
+pass through them verbatim).  For the patterns regenerated from /repo in this run. -/
+theorem ip_stage_changes_no_space (c : IpCfg)
+    (hp : c.pattern = Generated.Patterns.ipv4 ∨ c.pattern = Generated.Patterns.ipv6) (undo : Bool)
+    (line out : List Char) (h : anonIpLine c undo line = .ok out) :
+    ∃ segs : List Seg, line = (segs.map Seg.src).flatten ∧ out = (segs.map Seg.dst).flatten ∧
+      ∀ sg ∈ segs, ∀ t rp, sg = .rep t rp → ∀ ch ∈ t, inRanges Generated.Patterns.spaceSet ch = false := by
+  obtain ⟨segs, h1, h2, h3⟩ := C06.only_matched_spans_change c undo line out h
+  refine ⟨segs, h1, h2, ?_⟩
+  intro sg hsg t rp hst ch hch
+  have hal := (h3 sg hsg t rp hst).2 ch hch
+  rcases hp with hp | hp
+  · rw [hp] at hal; exact disjointFrom_spec _ _ C06.no_space_in_spans_regenerated.1 ch hal
+  · rw [hp] at hal; exact disjointFrom_spec _ _ C06.no_space_in_spans_regenerated.2 ch hal
 
 end Netconan.Props.C12
